@@ -43,6 +43,8 @@ def acc_real(state):
     def typ(n):
         if n not in nodes or nodes[n][0] is None:
             return z3.IntVal(sg.MISSING)
+        if not isinstance(nodes[n][0], str):
+            return z3.IntVal(sg.NONSTR)
         return z3.IntVal(sg.TS.get(nodes[n][0], sg.UNSUPPORTED))
 
     a = Acc(lambda n: z3.BoolVal(n in nodes), typ, lambda n: z3.BoolVal(n in nodes and bool(nodes[n][1])), lambda u, v: z3.BoolVal((u, v) in edges))
@@ -82,7 +84,7 @@ def spec_of(state):
     return {"nodes": {n: list(v) for n, v in sorted(nodes.items())}, "edges": sorted(map(list, edges))}
 
 
-def run(ctx, tag, U, vars_, pre, bbs, op, posts, split=(0, 0), conf_every=1, detail=None, normalize_ret=None, compare_ret=True, reachable=None, conf_extra=None, OM=None):
+def run(ctx, tag, U, vars_, pre, bbs, op, posts, split=(0, 0), conf_every=1, detail=None, normalize_ret=None, compare_ret=True, reachable=None, conf_extra=None, OM=None, nonstr=False):
     """bbs: dict inst -> (ins, outs) (concrete registry);  op(c) -> value;  posts(preA, postA, outcome, names) -> [(name, formula, sig, what)]"""
     import circuitgraph as cg
 
@@ -103,6 +105,7 @@ def run(ctx, tag, U, vars_, pre, bbs, op, posts, split=(0, 0), conf_every=1, det
         g = sg.SymDiGraph(o, U, vars_)
         g.pin_types = mode["pin"]
         g.OM = OM
+        g.allow_nonstr = nonstr
         c = cg.Circuit(name="sym", graph=g, blackboxes=mkbbs())
         out = run_op(op, c)
         if out.kind == "raise" and out.exc in ("TypeError", "AttributeError", "NotImplementedError") and owns():
@@ -117,7 +120,7 @@ def run(ctx, tag, U, vars_, pre, bbs, op, posts, split=(0, 0), conf_every=1, det
                 rng = _random.Random(f"{tag}-{ctx.r['counters'].get('paths_sampled_concretely', 0)}")
                 P_, T_, O_, E_ = vars_
                 bvars = list(P_.values()) + list(O_.values()) + list(E_.values()) + (list(OM.values()) if OM else [])
-                ivars = [(t_, 0, sg.MISSING) for t_ in T_.values()]
+                ivars = [(t_, 0, sg.NONSTR if nonstr else sg.MISSING) for t_ in T_.values()]
                 ctx.count("paths_sampled_concretely")
                 found = False
                 for _i in range(48):
